@@ -251,7 +251,28 @@ func renderStyles(r *core.Rand, doc any) ([]byte, string) {
 	if err != nil {
 		return nil, "unrenderable"
 	}
-	return unquoteNumericKeys(r, respellInts(r, b)), "yaml-block"
+	return unquoteLegacyBools(r, unquoteNumericKeys(r, respellInts(r, b))), "yaml-block"
+}
+
+var quotedLegacyBoolRE = regexp.MustCompile(`(?m)(: |- )"(yes|no|on|off|Yes|No|On|Off|YES|NO|ON|OFF|y|n|Y|N)"$`)
+
+// unquoteLegacyBools: some values spelled like YAML 1.1 booleans are written plain; under the YAML 1.2 core schema
+// (what yaml.v3 resolves by) they are strings all the same.
+func unquoteLegacyBools(r *core.Rand, b []byte) []byte {
+	return quotedLegacyBoolRE.ReplaceAllFunc(b, func(m []byte) []byte {
+		if r.Intn(2) == 0 {
+			return m
+		}
+		sub := quotedLegacyBoolRE.FindSubmatch(m)
+		var chk any
+		if yaml.Unmarshal(sub[2], &chk) != nil {
+			return m
+		}
+		if _, isStr := chk.(string); !isStr {
+			return m // (yaml.v3 itself reads this spelling as something else: keep it quoted)
+		}
+		return []byte(string(sub[1]) + string(sub[2]))
+	})
 }
 
 var quotedNumericKeyRE = regexp.MustCompile(`(?m)^(\s*(?:- )?)"(0x[0-9A-Fa-f]+|0o[0-7]+|[0-9]+)":`)
@@ -429,6 +450,20 @@ func setFlow(n *yaml.Node) {
 	}
 }
 
+// inputStepList: the entries of the document's step sequence (nil when it has none).
+func inputStepList(v any) []any {
+	switch t := v.(type) {
+	case []any:
+		return t
+	case vl.OMap:
+		if sv, ok := findKV(t, "steps"); ok {
+			l, _ := sv.([]any)
+			return l
+		}
+	}
+	return nil
+}
+
 func countEntries(v any) (int, bool) {
 	switch t := v.(type) {
 	case []any:
@@ -487,6 +522,11 @@ func c03Oracle(c *ctx, desc map[string]any, typed pipeline.Steps, inSteps, outSt
 			modelled = groupModelled
 			group = t
 		case *pipeline.UnknownStep:
+			// a mapping the rule table makes a command step, with every typed field plainly well-formed, is a command
+			// step (in its normal form), not a verbatim copy
+			if plainlyWellFormedCommand(im) {
+				c.res.Fail(core.OracleFailure{What: fmt.Sprintf("step %d is a plainly well-formed command step but was kept as an unknown step (not normalised)", i+1), Input: desc, Got: vl.Enc(om)})
+			}
 			// kept verbatim: everything must be there
 			if vl.Enc(jsonViewGo(im)) != vl.Enc(om) {
 				c.res.Fail(core.OracleFailure{What: fmt.Sprintf("unknown step %d is not kept verbatim", i+1), Input: desc, Got: vl.Enc(om), Want: vl.Enc(jsonViewGo(im))})
@@ -526,6 +566,41 @@ func c03Oracle(c *ctx, desc map[string]any, typed pipeline.Steps, inSteps, outSt
 			c03Oracle(c, desc, group.Steps, is, os)
 		}
 	}
+}
+
+// plainlyWellFormedCommand: no `type`; a `command` or `commands` that is a string or a list of strings; label / key and
+// their aliases strings; no other typed field (env, plugins, matrix, cache, signature) at all. Nothing in such a
+// mapping can make typed decoding fail.
+func plainlyWellFormedCommand(im vl.OMap) bool {
+	isStr := func(v any) bool { _, ok := v.(string); return ok }
+	has := false
+	if _, a := findKV(im, "command"); a {
+		if _, b := findKV(im, "commands"); b {
+			return false // both spellings at once: `command` must then be a string (finding F7's neighbourhood)
+		}
+	}
+	for _, kv := range im {
+		switch kv.K {
+		case "type", "env", "plugins", "matrix", "cache", "signature":
+			return false
+		case "command", "commands":
+			has = true
+			if l, ok := kv.V.([]any); ok {
+				for _, e := range l {
+					if !isStr(e) {
+						return false
+					}
+				}
+			} else if !isStr(kv.V) {
+				return false
+			}
+		case "label", "name", "key", "id", "identifier":
+			if !isStr(kv.V) {
+				return false
+			}
+		}
+	}
+	return has
 }
 
 // c03MatrixLegs: walks the JSON and YAML views of a marshalled step list in parallel (groups recursively) and
@@ -606,6 +681,11 @@ func parseStr(r *core.Rand) string {
 	switch r.Intn(10) {
 	case 0, 1, 2:
 		return core.Pick(r, gen.YAMLLookalikes)
+	case 3:
+		if r.Intn(4) == 0 {
+			// carriage returns are inside the domain: lone, before a line feed, doubled before a line feed, trailing
+			return core.Pick(r, []string{"make\r\ntest", "make\r\r\ntest", "cr\rmid", "trail\r", "trail\r\r", "\r\n", "a\r\r\r\nb"})
+		}
 	}
 	return core.Pick(r, []string{"build", "test", "echo hello", "make -j4", "a b", "x", "release", "main", "$FOO", "{{matrix}}", "wait", "command"})
 }
@@ -629,13 +709,29 @@ func runParse(c *ctx, prop string) error {
 		n = 1
 	}
 	probes := c.known.probeDocuments()
+	// C09: the normal form is deeper than the legacy shapes (a bare step list gains `steps`, plugins written as one
+	// mapping become a list of one-entry mappings). One document per shape and per depth 20-72: whatever is accepted
+	// must be accepted again in its normal form.
+	var depthSweep [][]byte
+	if prop == "C09" && c.only == nil {
+		for d := 20; d <= 72; d++ {
+			cfg, _ := json.Marshal(gen.DeepChain(d))
+			depthSweep = append(depthSweep,
+				[]byte(fmt.Sprintf("- command: x\n  plugins:\n    docker#v1: %s\n", cfg)),
+				[]byte(fmt.Sprintf("steps:\n  - command: x\n    plugins:\n      docker#v1: %s\n", cfg)),
+				[]byte(fmt.Sprintf("- wait: ~\n  zz_deep: %s\n", cfg)))
+		}
+	}
 	for i := 0; i < n; i++ {
 		keyFn := gen.DefaultKey
 		if prop == "C13" {
 			keyFn = gen.KeyWithControls // C13 quantifies over every byte string; C03 / C09 exclude control characters
 		}
 		o := &gen.Opts{R: rng, Str: parseStr, Key: keyFn, UntypedExotic: true, TypeErrors: typeErrors, MaxGroupDepth: 4, MaxMapSize: 16, Hist: c.res.Hist,
-			GroupBias: 8}
+			GroupBias: 8, DeepNesting: 60}
+		if prop == "C13" {
+			o.ManyUnknown = 80
+		}
 		var src []byte
 		style := "given"
 		if c.only != nil {
@@ -644,6 +740,8 @@ func runParse(c *ctx, prop string) error {
 			src, style = probes[i], "known-finding-probe"
 		} else if d := c.corpusAt(i-len(probes), 1); d != nil {
 			src, style = []byte(d.Document), "regression-corpus"
+		} else if k := i - len(probes) - len(c.corpus); prop == "C09" && k >= 0 && k < len(depthSweep) {
+			src, style = depthSweep[k], "legacy-shape-depth-sweep"
 		} else {
 			doc := o.Pipeline()
 			src, style = renderStyles(rng, doc)
@@ -726,6 +824,18 @@ func runParse(c *ctx, prop string) error {
 		for _, s := range p.Steps {
 			if s == nil || reflectNil(s) {
 				c.res.Fail(core.OracleFailure{What: "nil step in a usable result", Input: desc})
+			}
+		}
+		// an unrecognised scalar entry is kept verbatim (case and surrounding blanks included)
+		if l := inputStepList(treeV); len(l) == len(p.Steps) {
+			for si, e := range l {
+				if es, ok := e.(string); ok {
+					if u, ok := p.Steps[si].(*pipeline.UnknownStep); ok {
+						if got, _ := u.Contents.(string); got != es {
+							c.res.Fail(core.OracleFailure{What: fmt.Sprintf("unknown scalar step %d is not kept verbatim", si+1), Input: desc, Got: fmt.Sprint(u.Contents), Want: es})
+						}
+					}
+				}
 			}
 		}
 		var jb, yb []byte
